@@ -108,4 +108,88 @@ theorem tie_fixStaleLocks :
       ["sch.pool.Subscribe", "sch.pool.Unsubscribe", "sch.pool.CountWorkers", "sch.pool.Running",
        "sch.queue.Entries", "sch.queue.Unlock"] := ⟨rfl, rfl, rfl⟩
 
+/-! ### L2: pool bookkeeping -/
+
+/-- `Pool.StartContainer`: candidates are exactly the workers of the right type that are Idle
+with IdleBehavior run; the latest `busy` wins (`C14.Pool.startable`, `startCandidates`). -/
+theorem tie_pool_StartContainer : startContainerPoolConds =
+    ["if w.instType == it && w.state == StateIdle && w.idleBehavior == IdleBehaviorRun",
+     "if wkr == nil || w.busy.After(wkr.busy)",
+     "if wkr == nil"] := rfl
+
+/-- `Pool.Running`: running and starting keys of every worker with zero time, then the `exited`
+entries (`C14.Pool.runningView`, `runningKeys`). -/
+theorem tie_pool_Running : runningPoolText =
+    "{ wp.setupOnce.Do(wp.setup) wp.mtx.Lock() defer wp.mtx.Unlock() r := map[string]time.Time{} for _, wkr := range wp.workers { for uuid := range wkr.running { r[uuid] = time.Time{} } for uuid := range wkr.starting { r[uuid] = time.Time{} } } for uuid, exited := range wp.exited { r[uuid] = exited } return r }" := rfl
+
+/-- `KillContainer` looks in `running`, then `starting` (`C14.Pool.killContainer`);
+`ForgetContainer` deletes an existing `exited` entry (`C14.Pool.forget`). -/
+theorem tie_pool_Kill_Forget :
+    killContainerConds = ["if rr == nil", "if rr != nil"] ∧ forgetContainerConds = ["if ok"] := ⟨rfl, rfl⟩
+
+/-- `worker.startContainer`: runner into `starting`, state Running (`C14.Worker.accept`); the
+goroutine calls `rr.Start()`, then under the lock deletes from `starting` and sets `running`
+(`C14.Worker.startDone`). -/
+theorem tie_worker_startContainer :
+    startContainerWorkerConds = ["if wkr.state != StateRunning", "if wkr.wp.mTimeFromQueueToCrunchRun != nil"] ∧
+    startContainerWorkerCalls = ["newRemoteRunner", "rr.Start", "wkr.mtx.Lock", "wkr.mtx.Unlock", "delete"] :=
+  ⟨rfl, rfl⟩
+
+/-- `worker.closeRunner` (`C14.Worker.closeRunner`): nothing without a runner; delete from
+`running`, stamp `updated`, record `wp.exited`, Running → Idle when nothing is left. -/
+theorem tie_worker_closeRunner : closeRunnerText =
+    "{ rr := wkr.running[uuid] if rr == nil { return } wkr.logger.WithField(\"ContainerUUID\", uuid).Info(\"crunch-run process ended\") delete(wkr.running, uuid) rr.Close() now := time.Now() wkr.updated = now wkr.wp.exited[uuid] = now if wkr.state == StateRunning && len(wkr.running)+len(wkr.starting) == 0 { wkr.state = StateIdle } }" := rfl
+
+/-- `worker.updateRunning` (`C14.Worker.adoptAlive`, `closeDead`). -/
+theorem tie_worker_updateRunning :
+    updateRunningConds = ["if ok", "if ok", "if !alive[uuid]"] ∧
+    updateRunningCalls = ["delete", "newRemoteRunner", "wkr.closeRunner"] := ⟨rfl, rfl⟩
+
+/-- `worker.probeAndUpdate`: the tests of `C14.Worker.drainStep`, `probeFailed`, `applyFailed`,
+the stale-probe guard `updated != wkr.updated`, and `applyFresh`, in source order. -/
+theorem tie_worker_probeAndUpdate : probeAndUpdateConds =
+    ["switch initialState", "case StateShutdown", "case StateIdle", "case StateRunning",
+     "case StateUnknown", "case StateBooting", "default",
+     "if !booted", "if !booted", "if booted",
+     "if booted || wkr.state == StateUnknown",
+     "if reportedBroken && wkr.idleBehavior == IdleBehaviorRun",
+     "if !ok || (!booted && len(ctrUUIDs) == 0 && len(wkr.running) == 0)",
+     "if wkr.state == StateShutdown && wkr.updated.After(updated)",
+     "if wkr.shutdownIfBroken(dur)",
+     "if !booted",
+     "if updated != wkr.updated",
+     "if len(ctrUUIDs) > 0",
+     "if len(wkr.running) > 0",
+     "if booted && (wkr.state == StateUnknown || wkr.state == StateBooting)",
+     "if wkr.state == StateBooting",
+     "if !changed",
+     "if wkr.state == StateUnknown && changed",
+     "if wkr.state == StateIdle && len(wkr.starting)+len(wkr.running) > 0",
+     "if wkr.state == StateRunning && len(wkr.starting)+len(wkr.running) == 0",
+     "if booted && (initialState == StateUnknown || initialState == StateBooting)"] := rfl
+
+/-- … with three critical sections (begin, after the boot probe, apply) and the probes between. -/
+theorem tie_worker_probeAndUpdate_calls : probeAndUpdateCalls =
+    ["wkr.mtx.Lock", "wkr.mtx.Unlock", "wkr.probeBooted", "wkr.mtx.Lock", "wkr.mtx.Unlock",
+     "wkr.probeRunning", "wkr.mtx.Lock", "wkr.mtx.Unlock",
+     "wkr.setIdleBehavior", "wkr.shutdownIfBroken", "wkr.updateRunning"] := rfl
+
+/-- `Pool.sync` (`C14.Pool.sync`): update/add listed instances, retry shutdown, drop workers not
+updated after the threshold. -/
+theorem tie_pool_sync :
+    poolSyncConds =
+      ["if !ok", "if isNew",
+       "if wkr.state == StateShutdown && time.Since(wkr.destroyed) > wp.timeoutShutdown",
+       "if wkr.updated.After(threshold)",
+       "if wp.mDisappearances != nil",
+       "if wp.mTimeFromShutdownToGone != nil && !wkr.destroyed.IsZero()",
+       "if !wp.loaded", "if notify"] ∧
+    poolSyncCalls = ["wp.updateWorker", "wkr.shutdown", "delete", "wkr.Close"] := ⟨rfl, rfl⟩
+
+/-- `container.Queue.Update` keeps local lock/unlock/cancel results that arrive during a poll
+(`dontupdate`), as the L3 cache model assumes (`updateWithResp` marks the uuid). -/
+theorem tie_queue_dontupdate :
+    queueUpdateConds = ["if err != nil", "if dontupdate", "if !ok", "if dontupdate", "if !stillpresent"] ∧
+    updateWithRespConds = ["if cq.dontupdate != nil", "if !ok"] := ⟨rfl, rfl⟩
+
 end ArvVerif.Tie.C14
